@@ -135,6 +135,7 @@ pub fn execute(case: &ProbeCase) -> RunResult {
         abort_unwind: true,
         script: case.script.clone(),
         abort_on_cell_race: true,
+        stretch: 1,
     };
     let exec = Exec::new(cfg, n);
     let locks: Arc<Vec<HalfLockProbe<Canary>>> = Arc::new((0..case.locks.max(1)).map(|_| HalfLockProbe::new(Canary::new())).collect());
